@@ -402,6 +402,25 @@ def enum_stub(shard, nshards, tier):
             i += 1
 
 
+def enum_limits(shard, nshards, tier):
+    from checks import c06
+    i = 0
+    for shape in c06.LIMIT_SHAPES + ["[%s]: v\n", "{a: %s}: v\n", "? - %s\n: v\n", "- %s:\n- x\n", "%s: &a\n  - *a\n"]:
+        for n in c06.LIMIT_LENGTHS:
+            for fill in ("k", "\xe9", "k "):
+                if i % nshards == shard:
+                    body = (fill * n)[:n]
+                    if body.endswith(" "):
+                        body = body[:-1] + "k"
+                    # the length that counts is the distance from the start of the key to its ':' - aim at it for every shape
+                    for pad in (0, len(shape.split("%s")[0].lstrip("-? \n").replace("k:\n  ", ""))):
+                        if pad and pad < n:
+                            yield shape % body[pad:]
+                        elif not pad:
+                            yield shape % body
+                i += 1
+
+
 def arms(tier):
     return [
         Arm("valid", make_eval("valid"), lambda: gi.rendered_texts(3, 10), quick=6000, thorough=300000),
@@ -413,6 +432,9 @@ def arms(tier):
         # coverage-guided search (vlib/greybox.py) under the same token / event / position oracle
         Arm("greybox", make_eval("greybox"), enum=lambda s, ns, tier: greybox.campaign(
             s, ns, tier, PROPERTY, "greybox", quick=12000, thorough=1000000)),
+        # names of every kind (keys of every form, anchors, tags, scalars) at and around the lengths where the scanner has a limit
+        # (128 characters of key look-ahead in the emitter, 1024 for a simple key, 4096 for a reader block): same oracle
+        Arm("limits", make_eval("limits"), enum=enum_limits, exhaustive=True),
         Arm("stub-tokens", eval_stub, enum=enum_stub, exhaustive=True),
         Arm("stub-random", eval_stub, lambda: st.lists(st.sampled_from(STUB_KINDS), min_size=5, max_size=14).map(tuple), quick=20000, thorough=1000000),
     ]
